@@ -476,7 +476,8 @@ def check_dhtv_copy(run, A):
 
 def check(run):
     A = run.A
-    from ..opt import check_optional_truthiness, check_params_reach, check_forwarding, check_stale_loop_variables, check_argument_names
+    from ..opt import check_optional_truthiness, check_params_reach, check_forwarding, check_stale_loop_variables, check_argument_names, check_none_use
+    check_none_use(run, A, ('pb_bss.permutation_alignment',))
     check_argument_names(run, A, ('pb_bss.permutation_alignment',))
     check_stale_loop_variables(run, A, ('pb_bss.permutation_alignment',))
     check_forwarding(run, A, ('pb_bss.permutation_alignment',))
